@@ -535,7 +535,27 @@ type restartObs struct {
 	Detail string   `json:"detail,omitempty"`
 }
 
-func baseID(base string) string { return base } // Info.Name() is the file base name
+// fatalLine extracts the fatal / panic message of a dead child from its stderr tail.
+func fatalLine(e string) string {
+	lines := strings.Split(e, "\n")
+	for i := len(lines) - 1; i >= 0; i-- {
+		l := lines[i]
+		if strings.Contains(l, `"level":"fatal"`) || strings.Contains(l, `"level":"panic"`) || strings.HasPrefix(l, "panic:") {
+			if j := strings.Index(l, `"message"`); j >= 0 {
+				l = l[j:]
+			}
+			return trimHead(l, 300)
+		}
+	}
+	return trim(e, 300)
+}
+
+func trimHead(s string, n int) string {
+	if len(s) > n {
+		return s[:n]
+	}
+	return s
+}
 
 // restartCheck starts a fresh child on dir and reads every document back.
 func restartCheck(dir, base string, c *corpus, maxQueries int) (obs restartObs, child *storectl.Store) {
@@ -554,13 +574,7 @@ func restartCheck(dir, base string, c *corpus, maxQueries int) (obs restartObs, 
 	}
 	if _, err := ch.Call(storectl.Req{Op: "open", Dir: dir, SkipSortDocs: c.Skip}); err != nil {
 		ch.Close()
-		d := err.Error()
-		if i := strings.Index(d, `"message"`); i >= 0 {
-			d = d[i:]
-		}
-		if len(d) > 300 {
-			d = d[:300]
-		}
+		d := fatalLine(err.Error())
 		return restartObs{Kind: "LFatal", After: listAfter(), Detail: "open failed: " + d}, nil
 	}
 	obs.Kind = "LSkipped"
